@@ -1184,3 +1184,205 @@ def rule_deque_shape(ctx):
 
 # release builds carry no overflow asserts: the arithmetic inventory is a statement about the checked (dev) program
 rule_inv_arith.skip_configs = ('release',)
+
+
+# ---------------------------------------------------------------------------------------------------------------------------------
+# DEQUE-links: the inductive step of list well-formedness
+_PTR_VIEWS = ('as_ptr', 'as_ref', 'as_mut', 'from', 'new', 'new_unchecked', 'from_raw', 'into_raw', 'cast', 'deref', 'deref_mut', 'leak',
+              'as_non_null_ptr', 'into_non_null', 'from_ref', 'from_mut', 'borrow', 'borrow_mut', 'as_mut_ptr', 'cast_mut', 'cast_const', 'clone')
+_LINKS = ('next', 'prev', 'head', 'tail')
+
+
+def _pcore(t):
+    """A term modulo pointer views: NonNull / Box / raw-pointer conversions of a node pointer denote the node."""
+    if not isinstance(t, tuple) or not t:
+        return t
+    if t[0] == 'call' and t[2] and str(t[1]).split('::')[-1] in _PTR_VIEWS and ('ptr' in str(t[1]) or 'Box' in str(t[1]) or 'boxed' in str(t[1]) or
+                                                                                  'convert' in str(t[1]) or 'ops::' in str(t[1]) or 'clone' in str(t[1])):
+        return _pcore(t[2][0])
+    if t[0] == 'fld' and t[2] in ('0', 0, 'pointer'):
+        return _pcore(t[1])
+    if t[0] in ('overlay', 'val', 'ref'):
+        return _pcore(t[1])
+    if t[0] == 'payload' and t[2] == 'Some' and isinstance(t[1], tuple) and t[1] and t[1][0] == 'call' and str(t[1][1]).endswith('NonNull::new'):
+        return _pcore(t[1])
+    if t[0] == 'aggr':
+        return ('aggr', t[1], t[2], tuple(_pcore(x) for x in t[3]))
+    return tuple(_pcore(x) if isinstance(x, tuple) else x for x in t)
+
+
+def rule_deque_links(ctx):
+    r = RuleResult('DEQUE-links', 'inductive step of list well-formedness: assuming the doubly-linked list is well formed before the call (n.prev = Some(p) => p.next = Some(n), '
+                   'n.next = Some(q) => q.prev = Some(n), prev == None exactly at the head, next == None exactly at the tail) and the node argument is a member, '
+                   'the links every path of push / unlink / pop / move-to-back leaves behind are exactly those of the well-formed list after the operation: the '
+                   'neighbours are joined to each other (or head / tail take the neighbour), a removed node keeps no link, a node put at the back has prev = old tail, '
+                   'next = None, old tail.next = tail = the node; no other link is written')
+    prog = ctx.prog
+    R = get_roles(ctx)
+    fns = [n for n in prog.bodies if n.startswith('common::deque::Deque::') and not n.endswith('::new') and prog.bodies[n].kind != 'closure' and any(
+        e[0] == 'write' and e[1] == DEQUE and e[2] in ('head', 'tail', 'len') for e in ctx.eff.transitive(n))]
+    SOME = lambda x: ('aggr', 'std::option::Option', 'Some', (x,))
+    npaths = 0
+    for nid in sorted(fns):
+        b = prog.bodies[nid]
+        role = 'push' if nid in R.push else ('move' if (nid in R.move or nid in R.move_prims or (prog.callees(nid) & (R.move | R.move_prims))) else 'remove')
+        if nid in R.move_prims and nid not in R.move:
+            continue        # private pointer-surgery helpers of the move role are judged inlined into it
+
+        def _in_module(n_, bb, d):
+            # everything the list module does to the links is part of the path; the cursor bookkeeping (writes no link) stays a call
+            if not (n_.startswith('common::deque::') or ' as common::deque::' in n_) or d >= 4 or bb.loops():
+                return False
+            w = {e[2] for e in ctx.eff.transitive(n_) if e[0] == 'write'}
+            return bool(w & {'head', 'tail', 'next', 'prev', 'len'}) or not w
+        sx = ctx.symex(inline_depth=4, loop_visits=2, inline_pred=_in_module, precise_heap=True)
+        try:
+            paths = [p for p in sx.run(nid) if not p.diverged]
+        except PathLimit:
+            raise CheckFailure('DEQUE-links: path limit in %s' % nid)
+        D = ('param', 1)
+        node_params = [i for i in range(2, b.argc + 1) if 'DeqNode' in b.locals[i]['ty']['s']]
+        for p in paths:
+            H, order = {}, []
+            for e in p.events:
+                if e[0] == 'write' and isinstance(e[1], tuple) and e[1][0] == 'fld' and e[1][2] in _LINKS:
+                    loc = (_pcore(e[1][1]), e[1][2])
+                    H[loc] = _pcore(e[2])
+                    order.append(loc)
+            if not H:
+                continue
+            known = {}
+            for c, v in p.conds:
+                if isinstance(c, tuple) and c and c[0] == 'discr':
+                    known[_pcore(c[1])] = v
+                # `opt.is_some()` / `opt.is_none()`: a comparison of the tag with a constant (Option has the two tags 0 and 1)
+                if isinstance(c, tuple) and len(c) == 4 and c[0] == 'cmp' and c[1] in ('eq', 'ne') and isinstance(v, bool):
+                    for x, y in ((c[2], c[3]), (c[3], c[2])):
+                        if isinstance(x, tuple) and x[0] == 'c' and x[1] in (0, 1) and isinstance(y, tuple) and y and y[0] == 'discr':
+                            holds = v if c[1] == 'eq' else not v
+                            known[_pcore(y[1])] = x[1] if holds else 1 - x[1]
+            eqs = [(tuple(_pcore(a) for a in c[2]), v) for c, v in p.conds if isinstance(c, tuple) and c and c[0] == 'call' and str(c[1]).endswith('ptr::eq') and len(c[2]) == 2]
+            Hd, Tl = ('fld', D, 'head'), ('fld', D, 'tail')
+            if role == 'push':
+                N = _pcore(('param', node_params[0])) if node_params else None
+            elif node_params:
+                N = _pcore(('param', node_params[0]))
+            else:
+                N = ('payload', Hd, 'Some', 0)       # pop: the front node
+            if N is None:
+                raise CheckFailure('DEQUE-links: no node argument found for %s' % nid)
+            P, Q = ('fld', N, 'prev'), ('fld', N, 'next')
+            pay = lambda o: ('payload', o, 'Some', 0)
+
+            def same_node(a, b_):
+                if a == b_:
+                    return True
+                return any(v is True and ((x == a and y == b_) or (x == b_ and y == a)) for (x, y), v in eqs)
+
+            def is_none(v):
+                if v == NONE or known.get(v) == 0:
+                    return True
+                # well-formedness before the call: the head has no prev, the tail no next
+                if v == P and role != 'push' and same_node(N, pay(Hd)):
+                    return True
+                if v == Q and role != 'push' and same_node(N, pay(Tl)):
+                    return True
+                return False
+
+            def is_some(v):
+                return known.get(v) == 1 or (isinstance(v, tuple) and v and v[0] == 'aggr' and v[2] == 'Some')
+
+            def equiv(a, b_):
+                if a == b_ or (is_none(a) and is_none(b_)):
+                    return True
+                # Some(payload(x)) == x when x is known to be Some
+                for x, y in ((a, b_), (b_, a)):
+                    if isinstance(x, tuple) and x and x[0] == 'aggr' and x[2] == 'Some' and x[3] and x[3][0] == pay(y) and is_some(y):
+                        return True
+                return False
+            post = lambda loc: H.get(loc, ('fld', loc[0], loc[1]))
+            # infeasible under the hypothesis: a member that is not the tail has a successor, one that is not the head a predecessor; a node argument
+            # implies a non-empty list
+            infeasible = False
+            if role != 'push':
+                if known.get(Q) == 0 and any(v is False and ((x == N and y == pay(Tl)) or (y == N and x == pay(Tl))) for (x, y), v in eqs):
+                    infeasible = True
+                if known.get(P) == 0 and any(v is False and ((x == N and y == pay(Hd)) or (y == N and x == pay(Hd))) for (x, y), v in eqs):
+                    infeasible = True
+                if node_params and (known.get(Hd) == 0 or known.get(Tl) == 0):
+                    infeasible = True
+                # the head has no predecessor, the tail no successor
+                if (known.get(P) == 1 and same_node(N, pay(Hd))) or (known.get(Q) == 1 and same_node(N, pay(Tl))):
+                    infeasible = True
+            # the list is empty at its head iff it is empty at its tail; an operation on a member (or on the front node) implies a non-empty list
+            if known.get(Hd) is not None and known.get(Tl) is not None and known.get(Hd) != known.get(Tl):
+                infeasible = True
+            if role != 'push' and (known.get(Hd) == 0 or known.get(Tl) == 0):
+                infeasible = True
+            if infeasible:
+                continue
+            npaths += 1
+            want, undecided = {}, []
+            if role in ('remove', 'move'):
+                if role == 'move' and is_none(Q):
+                    # the node is the tail already: nothing but `next = None` (a no-op) may be written
+                    want[(N, 'next')] = NONE
+                else:
+                    if is_none(P):
+                        want[(D, 'head')] = Q
+                    elif is_some(P):
+                        want[(pay(P), 'next')] = Q
+                    else:
+                        undecided.append('prev of the node')
+                    if role == 'move':
+                        if not is_some(Q):
+                            undecided.append('next of the node (a member that is not the tail)')
+                        if not is_some(Tl):
+                            undecided.append('tail of a non-empty list')
+                        want[(pay(Q), 'prev')] = P
+                        want[(N, 'prev')] = Tl
+                        want[(N, 'next')] = NONE
+                        want[(pay(Tl), 'next')] = SOME(N)
+                        want[(D, 'tail')] = SOME(N)
+                    else:
+                        if is_none(Q):
+                            want[(D, 'tail')] = P
+                        elif is_some(Q):
+                            want[(pay(Q), 'prev')] = P
+                        else:
+                            undecided.append('next of the node')
+                        want[(N, 'prev')] = NONE
+                        want[(N, 'next')] = NONE
+            else:
+                want[(N, 'next')] = NONE
+                want[(N, 'prev')] = Tl
+                want[(D, 'tail')] = SOME(N)
+                if is_none(Tl):
+                    want[(D, 'head')] = SOME(N)
+                elif is_some(Tl):
+                    want[(pay(Tl), 'next')] = SOME(N)
+                else:
+                    undecided.append('tail')
+            if undecided:
+                raise CheckFailure('DEQUE-links: a path of %s writes links without having tested %s -- shape not recognised (conditions: %s)' % (
+                    nid, ', '.join(undecided), [fmt(c)[:60] + "==" + str(v) for c, v in p.conds][:12]))
+            bad = []
+            for loc, exp in sorted(want.items(), key=str):
+                got = post(loc)
+                # `x := x`-style no-ops and locations left alone count as their pre-state value
+                if not equiv(got, exp):
+                    # Some(N) written as the pointer itself
+                    bad.append('%s.%s ends as %s, expected %s' % (fmt(loc[0])[:40], loc[1], fmt(got)[:50], fmt(exp)[:50]))
+            for loc in order:
+                if loc not in want and not equiv(H[loc], ('fld', loc[0], loc[1])):
+                    # an alias of an expected location (the successor of the node may be the tail, its predecessor the head)?
+                    bad.append('unexpected link write %s.%s := %s' % (fmt(loc[0])[:40], loc[1], fmt(H[loc])[:50]))
+            r.instance(function=nid, role=role, links_written=len(H), ok=not bad)
+            if bad:
+                r.violate(nid, 'list-links', role + '-' + bad[0].split(' ')[0].split('.')[-1], 'a path of %s does not leave the links of a well-formed list behind: %s (conditions: %s)' % (
+                    nid, '; '.join(bad[:3]), [fmt(c)[:40] + '==' + str(v) for c, v in p.conds][:6]),
+                    where=ctx.where(nid), expected='unlink: prev.next (or head) = next, next.prev (or tail) = prev, node.prev = node.next = None; push / move-to-back: '
+                    'node.prev = old tail, node.next = None, old tail.next (or head) = tail = node')
+    r.notes.append('%d link-writing paths of %d list operations judged against the post-state of a well-formed list' % (npaths, len(fns)))
+    r.require_floor(6, 'link-writing list-operation paths')
+    return r
